@@ -24,23 +24,23 @@ Proof.
   apply repeat_app.
 Qed.
 
-Lemma sumN_cons a l : sumN (a :: l) = a + sumN l.
+Lemma sumN_cons_eq a l : sumN (a :: l) = a + sumN l.
 Proof. reflexivity. Qed.
 
-Lemma sumN_nil : sumN [] = 0.
+Lemma sumN_nil_eq : sumN [] = 0.
 Proof. reflexivity. Qed.
 
 Lemma sumN_repeatN x n : sumN (repeatN x n) = n * x.
 Proof.
   unfold repeatN. rewrite <- (N2Nat.id n) at 2. induction (N.to_nat n) as [|k IH].
   - reflexivity.
-  - cbn [repeat]. rewrite sumN_cons, IH. lia.
+  - cbn [repeat]. rewrite sumN_cons_eq, IH. lia.
 Qed.
 
-Lemma lenN_map {A B} (f : A -> B) l : lenN (map f l) = lenN l.
+Lemma lenN_map_eq {A B} (f : A -> B) l : lenN (map f l) = lenN l.
 Proof. unfold lenN. now rewrite map_length. Qed.
 
-Lemma lenN_0_nil {A} (l : list A) : lenN l = 0 -> l = [].
+Lemma lenN_zero_nil {A} (l : list A) : lenN l = 0 -> l = [].
 Proof. destruct l; [reflexivity|]. rewrite lenN_cons. lia. Qed.
 
 Lemma rev_cons_inv {A} (l : list A) x r : rev l = x :: r -> l = rev r ++ [x].
@@ -61,12 +61,12 @@ Proof. unfold rl_flat. cbn [flat_map fst snd]. apply app_nil_r. Qed.
 Lemma lenN_rl_flat {V} (l : list (N * V)) : lenN (rl_flat l) = sumN (map fst l).
 Proof.
   induction l as [|[c v] t IH]; [reflexivity|].
-  unfold rl_flat in *. cbn [flat_map map fst snd]. rewrite lenN_app, lenN_repeatN, sumN_cons, IH. reflexivity.
+  unfold rl_flat in *. cbn [flat_map map fst snd]. rewrite lenN_app, lenN_repeatN, sumN_cons_eq, IH. reflexivity.
 Qed.
 
 Lemma sumN_In_le x l : In x l -> x <= sumN l.
 Proof.
-  induction l as [|a t IH]; [intros []|]. intros [->|H]; rewrite sumN_cons; [lia|]. specialize (IH H). lia.
+  induction l as [|a t IH]; [intros []|]. intros [->|H]; rewrite sumN_cons_eq; [lia|]. specialize (IH H). lia.
 Qed.
 
 Lemma rl_entry_le {V} (l : list (N * V)) e : In e l -> fst e <= lenN (rl_flat l).
@@ -75,7 +75,7 @@ Proof. intros H. rewrite lenN_rl_flat. apply sumN_In_le. now apply in_map. Qed.
 Lemma rl_dur_total (l : list (N * N)) : dur_total l = sumN (rl_flat l).
 Proof.
   unfold dur_total. induction l as [|[c v] t IH]; [reflexivity|].
-  unfold rl_flat in *. cbn [flat_map map fst snd]. rewrite sumN_app, sumN_cons, sumN_repeatN, IH. reflexivity.
+  unfold rl_flat in *. cbn [flat_map map fst snd]. rewrite sumN_app, sumN_cons_eq, sumN_repeatN, IH. reflexivity.
 Qed.
 
 Lemma rl_push_ok {V} m (eqb : V -> V -> bool) site l v l' :
@@ -107,7 +107,7 @@ Definition sizes_inv (ssize : N) (sizes : list N) (fixed : N) (isfixed : bool) (
   if isfixed then ssize = fixed /\ 0 < fixed /\ sizes = [] /\ vs = repeatN fixed (lenN vs) /\ 0 < lenN vs
   else ssize = 0 /\ sizes = vs.
 
-Lemma update_sample_sizes_ok m t c size t' c' vs :
+Lemma update_sample_sizes_okf m t c size t' c' vs :
   update_sample_sizes m t c size = Ok (t', c') ->
   wt_stsz_count t = lenN vs -> lenN vs + 1 < U32 ->
   sizes_inv (wt_stsz_size t) (wt_stsz_sizes t) (wc_fixed_sample_size c) (wc_is_fixed_sample_size c) vs ->
@@ -120,7 +120,7 @@ Proof.
   rewrite add_w_ok in H by lia. unfold sizes_inv in Hi.
   destruct (N.eqb_spec (lenN vs) 0) as [E0|E0].
   - (* first sample *)
-    apply lenN_0_nil in E0. subst vs.
+    apply lenN_zero_nil in E0. subst vs.
     destruct (wc_is_fixed_sample_size c);
       [destruct Hi as (_ & _ & _ & _ & Hn); change (lenN (@nil N)) with 0 in Hn; lia|]. destruct Hi as [Hs Hz].
     destruct (N.eqb_spec size 0) as [Es|Es]; cbn [res_bind] in H; injection H as <- <-.
@@ -152,7 +152,7 @@ Proof. apply Z.eqb_eq. Qed.
 Lemma Neqb_sound a b : N.eqb a b = true -> a = b.
 Proof. apply N.eqb_eq. Qed.
 
-Lemma update_rendering_offsets_ok m t sid o t' os :
+Lemma update_rendering_offsets_okf m t sid o t' os :
   update_rendering_offsets m t sid o = Ok t' ->
   sid = lenN os + 1 -> lenN os + 1 < U32 -> fits_signed 32 o = true ->
   ctts_inv (wt_ctts t) os ->
@@ -180,7 +180,7 @@ Proof.
         eexists. split; [reflexivity|]. unfold ctts_inv. split.
         -- rewrite E3, rl_flat_one, <- Hi. reflexivity.
         -- apply (E2 (fun v => fits_signed 32 v = true)); [|exact Ho]. constructor; [reflexivity|constructor].
-      * assert (os = []) by (apply lenN_0_nil; lia). subst os.
+      * assert (os = []) by (apply lenN_zero_nil; lia). subst os.
         destruct (rl_push m Z.eqb _ [] o) as [es'| | |] eqn:E; try discriminate.
         cbn [res_bind] in H. injection H as <-.
         apply rl_push_ok in E as [E3 E2]; [|exact Zeqb_sound|exact Hb].
@@ -284,7 +284,7 @@ Proof.
     cbn [app]. cbn [app] in IH. rewrite IH, app_assoc. reflexivity.
 Qed.
 
-Lemma write_chunk_ok m t c pos t' c' wrote :
+Lemma write_chunk_okf m t c pos t' c' wrote :
   write_chunk m t c pos = Ok (t', c', wrote) ->
   1 <= wc_chunk_samples c < U32 -> lenN (wt_co64 t) + 1 < U32 ->
   runs_ok (wt_stsc t) (Some 1) (lenN (wt_co64 t)) = true ->
@@ -326,12 +326,12 @@ Proof.
 Qed.
 
 (** ** header durations *)
-Definition tkhd_of (md mts ts : N) : N := if md * mts / ts <? U64 then md * mts / ts else U64MAX.
+Definition tkhd_sat (md mts ts : N) : N := if md * mts / ts <? U64 then md * mts / ts else U64MAX.
 
-Lemma update_durations_ok m w h dur mts h' :
+Lemma update_durations_okf m w h dur mts h' :
   update_durations m w h dur mts = Ok h' -> wh_mdhd_duration h + dur < U64 ->
   wh_mdhd_duration h' = wh_mdhd_duration h + dur /\
-  wh_tkhd_duration h' = tkhd_of (wh_mdhd_duration h + dur) mts (tc_timescale (tw_conf w)) /\
+  wh_tkhd_duration h' = tkhd_sat (wh_mdhd_duration h + dur) mts (tc_timescale (tw_conf w)) /\
   (U32MAX < wh_mdhd_duration h' -> wh_mdhd_version h' = 1) /\
   (U32MAX < wh_tkhd_duration h' -> wh_tkhd_version h' = 1).
 Proof.
@@ -351,7 +351,7 @@ Definition hist (chs : list (list wsample)) (pend : list wsample) : list wsample
 Lemma lenN_chunk_bytes ch : lenN (chunk_bytes ch) = csize ch.
 Proof.
   unfold chunk_bytes, csize. induction ch as [|s t IH]; [reflexivity|].
-  cbn [flat_map map]. rewrite lenN_app, sumN_cons, IH. reflexivity.
+  cbn [flat_map map]. rewrite lenN_app, sumN_cons_eq, IH. reflexivity.
 Qed.
 
 Lemma chunk_bytes_app a b : chunk_bytes (a ++ b) = chunk_bytes a ++ chunk_bytes b.
@@ -367,30 +367,30 @@ Definition sample_ok (s : wsample) : Prop := sz s < U32 /\ sample_typed s.
 Definition chunk_at (lo base : N) (out : bytes) (o : N) (ch : list wsample) : Prop :=
   lo <= o /\ o + csize ch <= base + lenN out /\ sliceN (o - base) (csize ch) out = chunk_bytes ch.
 
-Record tw_inv (lo base : N) (out : bytes) (mts : N) (w : twriter)
-              (chs : list (list wsample)) (pend : list wsample) : Prop := mkTwInv {
-  ti_lo : base <= lo;
-  ti_ok : Forall sample_ok (hist chs pend);
-  ti_id : wc_sample_id (tw_c w) = lenN (hist chs pend) + 1;
-  ti_idb : lenN (hist chs pend) + 1 < U32;
-  ti_cnt : wt_stsz_count (tw_t w) = lenN (hist chs pend);
-  ti_sizes : sizes_inv (wt_stsz_size (tw_t w)) (wt_stsz_sizes (tw_t w))
+Record twf_inv (lo base : N) (out : bytes) (mts : N) (w : twriter)
+              (chs : list (list wsample)) (pend : list wsample) : Prop := mkTwfInv {
+  twf_lo : base <= lo;
+  twf_ok : Forall sample_ok (hist chs pend);
+  twf_id : wc_sample_id (tw_c w) = lenN (hist chs pend) + 1;
+  twf_idb : lenN (hist chs pend) + 1 < U32;
+  twf_cnt : wt_stsz_count (tw_t w) = lenN (hist chs pend);
+  twf_sizes : sizes_inv (wt_stsz_size (tw_t w)) (wt_stsz_sizes (tw_t w))
                        (wc_fixed_sample_size (tw_c w)) (wc_is_fixed_sample_size (tw_c w)) (map sz (hist chs pend));
-  ti_stts : rl_flat (wt_stts (tw_t w)) = map ws_duration (hist chs pend);
-  ti_stts_v : Forall (fun e => snd e < U32) (wt_stts (tw_t w));
-  ti_ctts : ctts_inv (wt_ctts (tw_t w)) (map ws_rendering_offset (hist chs pend));
-  ti_stss : wt_stss (tw_t w) = stss_of (hist chs pend);
-  ti_runs : runs_ok (wt_stsc (tw_t w)) (Some 1) (lenN (wt_co64 (tw_t w))) = true;
-  ti_nil : wt_stsc (tw_t w) = [] -> wt_co64 (tw_t w) = [];
-  ti_counts : chunk_counts (wt_stsc (tw_t w)) (lenN (wt_co64 (tw_t w))) = map lenN chs;
-  ti_ne : Forall (fun ch : list wsample => 1 <= lenN ch) chs;
-  ti_offs : Forall2 (chunk_at lo base out) (wt_co64 (tw_t w)) chs;
-  ti_pn : wc_chunk_samples (tw_c w) = lenN pend;
-  ti_pb : wc_chunk_buffer (tw_c w) = chunk_bytes pend;
-  ti_md : wh_mdhd_duration (tw_h w) = sumN (map ws_duration (hist chs pend));
-  ti_td : wh_tkhd_duration (tw_h w) = tkhd_of (wh_mdhd_duration (tw_h w)) mts (tc_timescale (tw_conf w));
-  ti_mv : U32MAX < wh_mdhd_duration (tw_h w) -> wh_mdhd_version (tw_h w) = 1;
-  ti_tv : U32MAX < wh_tkhd_duration (tw_h w) -> wh_tkhd_version (tw_h w) = 1 }.
+  twf_stts : rl_flat (wt_stts (tw_t w)) = map ws_duration (hist chs pend);
+  twf_stts_v : Forall (fun e => snd e < U32) (wt_stts (tw_t w));
+  twf_ctts : ctts_inv (wt_ctts (tw_t w)) (map ws_rendering_offset (hist chs pend));
+  twf_stss : wt_stss (tw_t w) = stss_of (hist chs pend);
+  twf_runs : runs_ok (wt_stsc (tw_t w)) (Some 1) (lenN (wt_co64 (tw_t w))) = true;
+  twf_nil : wt_stsc (tw_t w) = [] -> wt_co64 (tw_t w) = [];
+  twf_counts : chunk_counts (wt_stsc (tw_t w)) (lenN (wt_co64 (tw_t w))) = map lenN chs;
+  twf_ne : Forall (fun ch : list wsample => 1 <= lenN ch) chs;
+  twf_offs : Forall2 (chunk_at lo base out) (wt_co64 (tw_t w)) chs;
+  twf_pn : wc_chunk_samples (tw_c w) = lenN pend;
+  twf_pb : wc_chunk_buffer (tw_c w) = chunk_bytes pend;
+  twf_md : wh_mdhd_duration (tw_h w) = sumN (map ws_duration (hist chs pend));
+  twf_td : wh_tkhd_duration (tw_h w) = tkhd_sat (wh_mdhd_duration (tw_h w)) mts (tc_timescale (tw_conf w));
+  twf_mv : U32MAX < wh_mdhd_duration (tw_h w) -> wh_mdhd_version (tw_h w) = 1;
+  twf_tv : U32MAX < wh_tkhd_duration (tw_h w) -> wh_tkhd_version (tw_h w) = 1 }.
 
 Lemma lenN_concat_ge (chs : list (list wsample)) :
   Forall (fun ch : list wsample => 1 <= lenN ch) chs -> lenN chs <= lenN (concat chs).
@@ -404,8 +404,8 @@ Proof. induction 1 as [|a b l1 l2 _ _ IH]; [reflexivity|]. rewrite !lenN_cons, I
 
 Lemma sumN_bound B l : Forall (fun x => x < B) l -> sumN l <= lenN l * B.
 Proof.
-  induction 1 as [|x t H _ IH]; [change (lenN (@nil N)) with 0; rewrite sumN_nil; lia|].
-  rewrite sumN_cons, lenN_cons. lia.
+  induction 1 as [|x t H _ IH]; [change (lenN (@nil N)) with 0; rewrite sumN_nil_eq; lia|].
+  rewrite sumN_cons_eq, lenN_cons. lia.
 Qed.
 
 Lemma dropN_app_le {A} n (l1 l2 : list A) : n <= lenN l1 -> dropN n (l1 ++ l2) = dropN n l1 ++ l2.
@@ -446,12 +446,12 @@ Lemma hist_flush chs pend : hist (chs ++ [pend]) [] = hist chs pend.
 Proof. unfold hist. rewrite concat_app. cbn [concat]. rewrite !app_nil_r. reflexivity. Qed.
 
 Lemma tw_write_sample_inv m lo base out mts w chs pend pos s w' wrote td :
-  tw_inv lo base out mts w chs pend -> sample_typed s -> pos = base + lenN out -> lo <= pos ->
+  twf_inv lo base out mts w chs pend -> sample_typed s -> pos = base + lenN out -> lo <= pos ->
   tw_write_sample m w pos s mts = Ok (w', wrote, td) ->
   td = wh_tkhd_duration (tw_h w') /\ tw_conf w' = tw_conf w /\
-  ((wrote = None /\ wt_co64 (tw_t w') = wt_co64 (tw_t w) /\ tw_inv lo base out mts w' chs (pend ++ [s])) \/
+  ((wrote = None /\ wt_co64 (tw_t w') = wt_co64 (tw_t w) /\ twf_inv lo base out mts w' chs (pend ++ [s])) \/
    (wrote = Some (pos, chunk_bytes (pend ++ [s])) /\ wt_co64 (tw_t w') = wt_co64 (tw_t w) ++ [pos] /\
-    tw_inv lo base (out ++ chunk_bytes (pend ++ [s])) mts w' (chs ++ [pend ++ [s]]) [])).
+    twf_inv lo base (out ++ chunk_bytes (pend ++ [s])) mts w' (chs ++ [pend ++ [s]]) [])).
 Proof.
   intros [Hlo Hok Hid Hidb Hcnt Hsz Hstts Hsv Hctts Hstss Hruns Hnil Hcounts Hne Hoffs Hpn Hpb Hmd Htd Hmv Htv]
          [Hd Ho] Hpos Hlp H.
@@ -466,20 +466,20 @@ Proof.
   unfold cast_w in H. rewrite N.mod_small in H by exact Hlen'.
   match type of H with res_bind (update_sample_sizes ?m ?t ?c ?z) _ = _ =>
     destruct (update_sample_sizes m t c z) as [[t1 c2]| | |] eqn:E1; try discriminate end.
-  destruct (update_sample_sizes_ok _ _ _ _ _ _ (map sz ss) E1) as (ssize' & sizes' & fixed' & isf' & -> & -> & Hsz');
-    [rewrite lenN_map; exact Hcnt | rewrite lenN_map; lia | exact Hsz |].
-  clear E1. rewrite lenN_map in H.
+  destruct (update_sample_sizes_okf _ _ _ _ _ _ (map sz ss) E1) as (ssize' & sizes' & fixed' & isf' & -> & -> & Hsz');
+    [rewrite lenN_map_eq; exact Hcnt | rewrite lenN_map_eq; lia | exact Hsz |].
+  clear E1. rewrite lenN_map_eq in H.
   cbn [res_bind wt_stsc wt_stsz_size wt_stsz_count wt_stsz_sizes wt_co64 wt_stts wt_ctts wt_stss
        wc_sample_id wc_fixed_sample_size wc_is_fixed_sample_size wc_chunk_samples wc_chunk_duration wc_chunk_buffer] in H.
   unfold update_sample_times in H.
   cbn [res_bind wt_stsc wt_stsz_size wt_stsz_count wt_stsz_sizes wt_co64 wt_stts wt_ctts wt_stss] in H.
   destruct (rl_push m N.eqb _ (wt_stts (tw_t w)) (ws_duration s)) as [stts'| | |] eqn:E2; try discriminate.
-  apply rl_push_ok in E2 as [E2a E2b]; [|exact Neqb_sound|rewrite Hstts, lenN_map; lia].
+  apply rl_push_ok in E2 as [E2a E2b]; [|exact Neqb_sound|rewrite Hstts, lenN_map_eq; lia].
   cbn [res_bind] in H.
   match type of H with res_bind (update_rendering_offsets ?m ?t ?i ?z) _ = _ =>
     destruct (update_rendering_offsets m t i z) as [t3| | |] eqn:E3; try discriminate end.
-  destruct (update_rendering_offsets_ok _ _ _ _ _ (map ws_rendering_offset ss) E3) as (ctts' & -> & Hctts');
-    [rewrite lenN_map; exact Hid | rewrite lenN_map; lia | exact Ho | exact Hctts |].
+  destruct (update_rendering_offsets_okf _ _ _ _ _ (map ws_rendering_offset ss) E3) as (ctts' & -> & Hctts');
+    [rewrite lenN_map_eq; exact Hid | rewrite lenN_map_eq; lia | exact Ho | exact Hctts |].
   clear E3.
   cbn [res_bind wt_stsc wt_stsz_size wt_stsz_count wt_stsz_sizes wt_co64 wt_stts wt_ctts wt_stss] in H.
   unfold update_sync_samples in H.
@@ -489,7 +489,7 @@ Proof.
   assert (Hmdb : wh_mdhd_duration (tw_h w) + ws_duration s < U64).
   { rewrite Hmd. assert (Hf : Forall (fun x => x < U32) (map ws_duration ss)).
     { apply Forall_map. eapply Forall_impl; [|exact Hok]. intros a [_ [Ha _]]. exact Ha. }
-    apply sumN_bound in Hf. rewrite lenN_map in Hf. clear - Hf Hn2 Hd. unfold U32, U64 in *. lia. }
+    apply sumN_bound in Hf. rewrite lenN_map_eq in Hf. clear - Hf Hn2 Hd. unfold U32, U64 in *. lia. }
   assert (Hnc : lenN (wt_co64 (tw_t w)) <= lenN ss).
   { rewrite (Forall2_lenN _ _ _ Hoffs). pose proof (lenN_concat_ge _ Hne). unfold ss, hist. rewrite lenN_app. lia. }
   assert (Hok' : Forall sample_ok (ss ++ [s])).
@@ -502,13 +502,13 @@ Proof.
   - (* the chunk is flushed *)
     match type of H with res_bind (write_chunk ?m ?t ?c ?p) _ = _ =>
       destruct (write_chunk m t c p) as [[[t5 c3] wr]| | |] eqn:E5; try discriminate end.
-    apply write_chunk_ok in E5 as (stsc' & -> & -> & -> & Hne' & Hruns' & Hcounts');
+    apply write_chunk_okf in E5 as (stsc' & -> & -> & -> & Hne' & Hruns' & Hcounts');
       cbn [wt_stsc wt_stsz_size wt_stsz_count wt_stsz_sizes wt_co64 wt_stts wt_ctts wt_stss
            wc_sample_id wc_fixed_sample_size wc_is_fixed_sample_size wc_chunk_samples wc_chunk_duration wc_chunk_buffer] in *;
       [| lia | lia | exact Hruns | exact Hnil].
     cbn [res_bind] in H.
     destruct (update_durations m w (tw_h w) (ws_duration s) mts) as [h1| | |] eqn:E6; try discriminate.
-    apply update_durations_ok in E6 as (E6a & E6b & E6c & E6d); [|exact Hmdb].
+    apply update_durations_okf in E6 as (E6a & E6b & E6c & E6d); [|exact Hmdb].
     cbn [res_bind wc_sample_id] in H. rewrite Hid in H. rewrite add_w_ok in H by lia. cbn [res_bind] in H.
     injection H as <- <- <-.
     cbn [tw_h tw_conf tw_t tw_c wt_co64]. split; [reflexivity|]. split; [reflexivity|]. right.
@@ -539,14 +539,14 @@ Proof.
         replace (pos - base) with (lenN out) by lia. rewrite <- lenN_chunk_bytes. apply sliceN_end.
     + reflexivity.
     + reflexivity.
-    + rewrite E6a, Hmd, map_app, sumN_app. cbn [map]. rewrite sumN_cons, sumN_nil. lia.
+    + rewrite E6a, Hmd, map_app, sumN_app. cbn [map]. rewrite sumN_cons_eq, sumN_nil_eq. lia.
     + rewrite E6b, E6a. reflexivity.
     + exact E6c.
     + exact E6d.
   - (* the sample stays pending *)
     cbn [res_bind] in H.
     destruct (update_durations m w (tw_h w) (ws_duration s) mts) as [h1| | |] eqn:E6; try discriminate.
-    apply update_durations_ok in E6 as (E6a & E6b & E6c & E6d); [|exact Hmdb].
+    apply update_durations_okf in E6 as (E6a & E6b & E6c & E6d); [|exact Hmdb].
     cbn [res_bind wc_sample_id wc_fixed_sample_size wc_is_fixed_sample_size wc_chunk_samples wc_chunk_duration wc_chunk_buffer] in H.
     rewrite Hid in H. rewrite add_w_ok in H by lia. cbn [res_bind] in H.
     injection H as <- <- <-.
@@ -573,22 +573,22 @@ Proof.
     + exact Hoffs.
     + rewrite lenN_app. reflexivity.
     + reflexivity.
-    + rewrite E6a, Hmd, map_app, sumN_app. cbn [map]. rewrite sumN_cons, sumN_nil. lia.
+    + rewrite E6a, Hmd, map_app, sumN_app. cbn [map]. rewrite sumN_cons_eq, sumN_nil_eq. lia.
     + rewrite E6b, E6a. reflexivity.
     + exact E6c.
     + exact E6d.
 Qed.
 
-Lemma tw_inv_grow lo base out mts w chs pend x :
-  tw_inv lo base out mts w chs pend -> tw_inv lo base (out ++ x) mts w chs pend.
+Lemma twf_inv_grow lo base out mts w chs pend x :
+  twf_inv lo base out mts w chs pend -> twf_inv lo base (out ++ x) mts w chs pend.
 Proof.
   intros [Hlo Hok Hid Hidb Hcnt Hsz Hstts Hsv Hctts Hstss Hruns Hnil Hcounts Hne Hoffs Hpn Hpb Hmd Htd Hmv Htv].
   constructor; try assumption.
   eapply Forall2_weaken; [|exact Hoffs]. intros a b Hab. apply chunk_at_grow; assumption.
 Qed.
 
-Lemma tw_new_inv lo base out mts id c w :
-  tw_new id c = Ok w -> base <= lo -> tw_inv lo base out mts w [] [] /\ wt_co64 (tw_t w) = [].
+Lemma twf_new_inv lo base out mts id c w :
+  tw_new id c = Ok w -> base <= lo -> twf_inv lo base out mts w [] [] /\ wt_co64 (tw_t w) = [].
 Proof.
   intros H Hlo. unfold tw_new in H. destruct (conf_check c); try discriminate. cbn [res_bind] in H.
   injection H as <-. split; [|reflexivity].
@@ -612,12 +612,12 @@ Definition final_of (w : twriter) : tfinal :=
   mkTf (tw_conf w) (tw_track_id w) (tables_of (tw_t w)) (tw_h w) (max_sample_size (tw_t w)).
 
 Lemma tw_write_end_inv m lo base out mts w chs pend pos w' wrote tf :
-  tw_inv lo base out mts w chs pend -> pos = base + lenN out -> lo <= pos ->
+  twf_inv lo base out mts w chs pend -> pos = base + lenN out -> lo <= pos ->
   tw_write_end m w pos = Ok (w', wrote, tf) ->
   tf = final_of w' /\
-  ((wrote = None /\ pend = [] /\ wt_co64 (tw_t w') = wt_co64 (tw_t w) /\ tw_inv lo base out mts w' chs []) \/
+  ((wrote = None /\ pend = [] /\ wt_co64 (tw_t w') = wt_co64 (tw_t w) /\ twf_inv lo base out mts w' chs []) \/
    (wrote = Some (pos, chunk_bytes pend) /\ wt_co64 (tw_t w') = wt_co64 (tw_t w) ++ [pos] /\
-    tw_inv lo base (out ++ chunk_bytes pend) mts w' (chs ++ [pend]) [])).
+    twf_inv lo base (out ++ chunk_bytes pend) mts w' (chs ++ [pend]) [])).
 Proof.
   intros [Hlo Hok Hid Hidb Hcnt Hsz Hstts Hsv Hctts Hstss Hruns Hnil Hcounts Hne Hoffs Hpn Hpb Hmd Htd Hmv Htv] Hpos Hlp H.
   unfold tw_write_end in H.
@@ -628,11 +628,11 @@ Proof.
   assert (Hnc : lenN (wt_co64 (tw_t w)) <= lenN (hist chs pend)).
   { rewrite (Forall2_lenN _ _ _ Hoffs). pose proof (lenN_concat_ge _ Hne). unfold hist. rewrite lenN_app. lia. }
   destruct (N.eqb_spec (lenN pend) 0) as [E0|E0].
-  - left. apply lenN_0_nil in E0. subst pend. unfold write_chunk in E. rewrite Hpn in E.
+  - left. apply lenN_zero_nil in E0. subst pend. unfold write_chunk in E. rewrite Hpn in E.
     change (lenN (@nil wsample) =? 0) with true in E. cbn iota in E. injection E as <- <- <-.
     split; [reflexivity|]. split; [reflexivity|]. split; [reflexivity|].
     constructor; cbn [tw_h tw_conf tw_t tw_c]; assumption.
-  - right. apply write_chunk_ok in E as (stsc' & -> & -> & -> & Hne' & Hruns' & Hcounts'); [| lia | lia | exact Hruns | exact Hnil].
+  - right. apply write_chunk_okf in E as (stsc' & -> & -> & -> & Hne' & Hruns' & Hcounts'); [| lia | lia | exact Hruns | exact Hnil].
     rewrite Hpb. split; [reflexivity|]. split; [reflexivity|].
     constructor;
       cbn [tw_h tw_conf tw_t tw_c wt_stsc wt_stsz_size wt_stsz_count wt_stsz_sizes wt_co64 wt_stts wt_ctts wt_stss
@@ -652,14 +652,14 @@ Proof.
 Qed.
 
 (** ** what the final tables of a track say *)
-Lemma nthN_map {A B} (f : A -> B) l n : nthN (map f l) n = option_map f (nthN l n).
+Lemma nthN_map_eq {A B} (f : A -> B) l n : nthN (map f l) n = option_map f (nthN l n).
 Proof.
   revert n; induction l as [|x t IH]; intros n; cbn [map nthN]; [reflexivity|].
   destruct (n =? 0); [reflexivity|]. apply IH.
 Qed.
 
 Lemma nth1_map {A B} (f : A -> B) l k : nth1 (map f l) k = option_map f (nth1 l k).
-Proof. unfold nth1. destruct (k =? 0); [reflexivity|]. apply nthN_map. Qed.
+Proof. unfold nth1. destruct (k =? 0); [reflexivity|]. apply nthN_map_eq. Qed.
 
 Lemma nthN_app_l {A} (l1 l2 : list A) n : n < lenN l1 -> nthN (l1 ++ l2) n = nthN l1 n.
 Proof.
@@ -671,7 +671,7 @@ Proof.
   intros H. rewrite !nthN_nth_error. unfold lenN in *. rewrite nth_error_app2 by lia. f_equal. lia.
 Qed.
 
-Lemma nthN_some_lt {A} (l : list A) n x : nthN l n = Some x -> n < lenN l.
+Lemma nthN_some_ltN {A} (l : list A) n x : nthN l n = Some x -> n < lenN l.
 Proof.
   intros H. destruct (N.ltb_spec n (lenN l)); [assumption|]. rewrite nthN_ge in H by assumption. discriminate.
 Qed.
@@ -685,7 +685,7 @@ Qed.
 
 Lemma sumN_map_lenN {A} (chs : list (list A)) : sumN (map lenN chs) = lenN (concat chs).
 Proof.
-  induction chs as [|c t IH]; [reflexivity|]. cbn [map concat]. rewrite sumN_cons, lenN_app, IH. reflexivity.
+  induction chs as [|c t IH]; [reflexivity|]. cbn [map concat]. rewrite sumN_cons_eq, lenN_app, IH. reflexivity.
 Qed.
 
 Lemma sync_ids_range k ss : Forall (fun x => k <= x < k + lenN ss) (sync_ids_from k ss).
@@ -749,7 +749,7 @@ Proof.
   rewrite firstn_app_2. cbn [firstn]. apply app_nil_r.
 Qed.
 
-Lemma firstn_lenN_app {A} (l1 l2 : list A) : firstn (N.to_nat (lenN l1)) (l1 ++ l2) = l1.
+Lemma firstn_lenN_app_l {A} (l1 l2 : list A) : firstn (N.to_nat (lenN l1)) (l1 ++ l2) = l1.
 Proof.
   replace (N.to_nat (lenN l1)) with (length l1 + 0)%nat by (unfold lenN; lia).
   rewrite firstn_app_2. cbn [firstn]. apply app_nil_r.
@@ -777,13 +777,13 @@ Proof.
     split; [lia|]. rewrite nthN_app_l in Hn by lia.
     apply nthN_split in Hn as (l1 & l2 & -> & Hl1).
     assert (Es : sum_range (map sz (pre ++ (l1 ++ s :: l2) ++ concat chs)) f0 k = csize l1).
-    { unfold sum_range. rewrite map_app. replace (f0 - 1) with (lenN (map sz pre)) by (rewrite lenN_map; lia).
+    { unfold sum_range. rewrite map_app. replace (f0 - 1) with (lenN (map sz pre)) by (rewrite lenN_map_eq; lia).
       rewrite skipn_lenN_app. rewrite <- app_assoc, map_app.
-      replace (k - f0) with (lenN (map sz l1)) by (rewrite lenN_map; lia). rewrite firstn_lenN_app. reflexivity. }
+      replace (k - f0) with (lenN (map sz l1)) by (rewrite lenN_map_eq; lia). rewrite firstn_lenN_app_l. reflexivity. }
     rewrite Es. rewrite csize_app in H2, H3. rewrite chunk_bytes_app in H3.
     change (s :: l2) with ([s] ++ l2) in H2, H3. rewrite csize_app in H2, H3. rewrite chunk_bytes_app in H3.
     assert (Eb : chunk_bytes [s] = ws_bytes s) by (unfold chunk_bytes; cbn [flat_map]; apply app_nil_r).
-    assert (Ec : csize [s] = sz s) by (unfold csize; cbn [map]; rewrite sumN_cons, sumN_nil; lia).
+    assert (Ec : csize [s] = sz s) by (unfold csize; cbn [map]; rewrite sumN_cons_eq, sumN_nil_eq; lia).
     rewrite Eb in H3. rewrite Ec in H2, H3. split; [lia|].
     apply sliceN_sub in H3. rewrite lenN_chunk_bytes in H3. unfold sz.
     replace (o + csize l1 - base) with (o - base + csize l1) by lia. exact H3.
@@ -807,8 +807,8 @@ Proof.
   - destruct offs; reflexivity.
   - destruct offs as [|o os]; [rewrite lenN_cons in H; change (lenN (@nil N)) with 0 in H; lia|].
     rewrite !lenN_cons in H. cbn [map concat chunk_extents]. unfold exts_of. cbn [combine map fst snd].
-    unfold takeN. rewrite map_app. replace (lenN ch) with (lenN (map sz ch)) by apply lenN_map.
-    rewrite firstn_lenN_app, dropN_app. f_equal. apply IH. lia.
+    unfold takeN. rewrite map_app. replace (lenN ch) with (lenN (map sz ch)) by apply lenN_map_eq.
+    rewrite firstn_lenN_app_l, dropN_app. f_equal. apply IH. lia.
 Qed.
 
 Lemma chunks_fit_ok lo base out offs chs :
@@ -816,8 +816,8 @@ Lemma chunks_fit_ok lo base out offs chs :
   chunks_fit offs (map lenN chs) (map sz (concat chs)) = true.
 Proof.
   intros HF Hb. induction HF as [|o ch offs chs (H1 & H2 & H3) HF IH]; [reflexivity|].
-  cbn [map concat chunks_fit]. rewrite map_app. replace (lenN ch) with (lenN (map sz ch)) by apply lenN_map.
-  rewrite firstn_lenN_app, skipn_lenN_app, IH. fold (csize ch).
+  cbn [map concat chunks_fit]. rewrite map_app. replace (lenN ch) with (lenN (map sz ch)) by apply lenN_map_eq.
+  rewrite firstn_lenN_app_l, skipn_lenN_app, IH. fold (csize ch).
   replace (o + csize ch <? U64) with true by (symmetry; apply N.ltb_lt; lia). reflexivity.
 Qed.
 
@@ -828,7 +828,7 @@ Qed.
 
 Section Final.
   Variables (lo base : N) (out : bytes) (mts : N) (w : twriter) (chs : list (list wsample)).
-  Hypothesis Hinv : tw_inv lo base out mts w chs [].
+  Hypothesis Hinv : twf_inv lo base out mts w chs [].
   Let ss := concat chs.
   Let tb := tables_of (tw_t w).
 
@@ -836,33 +836,33 @@ Section Final.
   Proof. unfold hist. apply app_nil_r. Qed.
 
   Lemma fin_count : t_stsz_count tb = lenN ss.
-  Proof. rewrite <- fin_hist. exact (ti_cnt _ _ _ _ _ _ _ Hinv). Qed.
+  Proof. rewrite <- fin_hist. exact (twf_cnt _ _ _ _ _ _ _ Hinv). Qed.
 
   Lemma fin_sizes : sizes_flat tb = map sz ss.
   Proof.
-    pose proof (ti_sizes _ _ _ _ _ _ _ Hinv) as H. pose proof fin_count as Hc. rewrite fin_hist in H.
+    pose proof (twf_sizes _ _ _ _ _ _ _ Hinv) as H. pose proof fin_count as Hc. rewrite fin_hist in H.
     unfold sizes_flat, tb, tables_of in *. cbn [t_stsz_size t_stsz_count t_stsz_sizes] in *.
     unfold sizes_inv in H. destruct (wc_is_fixed_sample_size (tw_c w)).
     - destruct H as (H1 & H2 & H3 & H4 & H5). rewrite H1, Hc.
       replace (0 <? wc_fixed_sample_size (tw_c w)) with true by (symmetry; apply N.ltb_lt; lia).
-      rewrite lenN_map in H4. symmetry. exact H4.
+      rewrite lenN_map_eq in H4. symmetry. exact H4.
     - destruct H as [H1 H2]. rewrite H1. exact H2.
   Qed.
 
   Lemma fin_deltas : deltas_flat tb = map ws_duration ss.
-  Proof. rewrite <- fin_hist. exact (ti_stts _ _ _ _ _ _ _ Hinv). Qed.
+  Proof. rewrite <- fin_hist. exact (twf_stts _ _ _ _ _ _ _ Hinv). Qed.
 
   Lemma fin_cts : cts_flat tb = map ws_rendering_offset ss.
   Proof.
-    pose proof (ti_ctts _ _ _ _ _ _ _ Hinv) as H. pose proof fin_count as Hc. rewrite fin_hist in H.
+    pose proof (twf_ctts _ _ _ _ _ _ _ Hinv) as H. pose proof fin_count as Hc. rewrite fin_hist in H.
     unfold cts_flat, tb, tables_of in *. cbn [t_ctts t_stsz_count] in *. unfold ctts_inv in H.
     destruct (wt_ctts (tw_t w)) as [es|].
     - exact (proj1 H).
-    - rewrite Hc. rewrite lenN_map in H. symmetry. exact H.
+    - rewrite Hc. rewrite lenN_map_eq in H. symmetry. exact H.
   Qed.
 
   Lemma fin_stss : t_stss tb = stss_of ss.
-  Proof. rewrite <- fin_hist. exact (ti_stss _ _ _ _ _ _ _ Hinv). Qed.
+  Proof. rewrite <- fin_hist. exact (twf_stss _ _ _ _ _ _ _ Hinv). Qed.
 
   Lemma fin_offsets : chunk_offsets tb = wt_co64 (tw_t w).
   Proof. unfold chunk_offsets, tb, tables_of. cbn [t_stco t_co64]. destruct (forallb _ _); reflexivity. Qed.
@@ -879,19 +879,19 @@ Section Final.
   Qed.
 
   Lemma fin_nchunks : lenN (wt_co64 (tw_t w)) = lenN chs.
-  Proof. exact (Forall2_lenN _ _ _ (ti_offs _ _ _ _ _ _ _ Hinv)). Qed.
+  Proof. exact (Forall2_lenN _ _ _ (twf_offs _ _ _ _ _ _ _ Hinv)). Qed.
 
   Lemma fin_counts : chunk_counts (t_stsc tb) (lenN (chunk_offsets tb)) = map lenN chs.
-  Proof. rewrite fin_offsets. exact (ti_counts _ _ _ _ _ _ _ Hinv). Qed.
+  Proof. rewrite fin_offsets. exact (twf_counts _ _ _ _ _ _ _ Hinv). Qed.
 
   Lemma fin_ss_ok : Forall sample_ok ss.
-  Proof. rewrite <- fin_hist. exact (ti_ok _ _ _ _ _ _ _ Hinv). Qed.
+  Proof. rewrite <- fin_hist. exact (twf_ok _ _ _ _ _ _ _ Hinv). Qed.
 
   Lemma fin_n_bound : lenN ss + 1 < U32.
-  Proof. rewrite <- fin_hist. exact (ti_idb _ _ _ _ _ _ _ Hinv). Qed.
+  Proof. rewrite <- fin_hist. exact (twf_idb _ _ _ _ _ _ _ Hinv). Qed.
 
   Lemma fin_nchunks_le : lenN chs <= lenN ss.
-  Proof. apply lenN_concat_ge. exact (ti_ne _ _ _ _ _ _ _ Hinv). Qed.
+  Proof. apply lenN_concat_ge. exact (twf_ne _ _ _ _ _ _ _ Hinv). Qed.
 
   Lemma fin_consistent : base + lenN out < U64 -> consistent tb = true.
   Proof.
@@ -906,18 +906,18 @@ Section Final.
       destruct (forallb (fun o => o <=? U32MAX) (wt_co64 (tw_t w))) eqn:Ef.
       + rewrite forallb_forall in Ef. specialize (Ef o Ho). apply N.leb_le in Ef. apply N.ltb_lt.
         unfold U32MAX in Ef. unfold U32 in *. lia.
-      + pose proof (ti_offs _ _ _ _ _ _ _ Hinv) as HF. apply N.ltb_lt. clear - HF Ho Hout.
+      + pose proof (twf_offs _ _ _ _ _ _ _ Hinv) as HF. apply N.ltb_lt. clear - HF Ho Hout.
         induction HF as [|a ch l1 l2 (H1 & H2 & H3) HF IH]; [destruct Ho|].
         destruct Ho as [<-|Ho]; [lia|auto].
-    - unfold tb, tables_of. cbn [t_stsc]. pose proof (ti_runs _ _ _ _ _ _ _ Hinv) as Hr.
-      pose proof (ti_nil _ _ _ _ _ _ _ Hinv) as Hnil. destruct (wt_stsc (tw_t w)) as [|e r].
+    - unfold tb, tables_of. cbn [t_stsc]. pose proof (twf_runs _ _ _ _ _ _ _ Hinv) as Hr.
+      pose proof (twf_nil _ _ _ _ _ _ _ Hinv) as Hnil. destruct (wt_stsc (tw_t w)) as [|e r].
       + specialize (Hnil eq_refl). rewrite Hnil in *. change (lenN (@nil N)) with 0 in *.
-        assert (chs = []) by (apply lenN_0_nil; lia). subst chs. reflexivity.
+        assert (chs = []) by (apply lenN_zero_nil; lia). subst chs. reflexivity.
       + cbn [runs_ok] in Hr. rewrite !andb_true_iff in Hr. destruct Hr as [[[[[[H1 H2] H3] H4] H5] H6] H7].
         apply N.eqb_eq in H1. apply N.leb_le in H4. apply N.leb_le. lia.
-    - exact (ti_runs _ _ _ _ _ _ _ Hinv).
+    - exact (twf_runs _ _ _ _ _ _ _ Hinv).
     - apply N.eqb_eq. apply sumN_map_lenN.
-    - pose proof (ti_sizes _ _ _ _ _ _ _ Hinv) as H. rewrite fin_hist in H. unfold sizes_inv in H.
+    - pose proof (twf_sizes _ _ _ _ _ _ _ Hinv) as H. rewrite fin_hist in H. unfold sizes_inv in H.
       unfold tb, tables_of. cbn [t_stsz_size]. apply N.ltb_lt.
       destruct (wc_is_fixed_sample_size (tw_c w)).
       + destruct H as (H1 & H2 & H3 & H4 & H5). rewrite H1.
@@ -925,23 +925,23 @@ Section Final.
         apply in_map_iff in Hin as (s & <- & Hs). rewrite Forall_forall in Hok. exact (proj1 (Hok s Hs)).
       + rewrite (proj1 H). unfold U32. lia.
     - pose proof fin_sizes as Hs. unfold sizes_flat in Hs. destruct (0 <? t_stsz_size tb); [reflexivity|].
-      apply N.eqb_eq. rewrite Hs. apply lenN_map.
-    - pose proof (ti_sizes _ _ _ _ _ _ _ Hinv) as H. rewrite fin_hist in H. unfold sizes_inv in H.
+      apply N.eqb_eq. rewrite Hs. apply lenN_map_eq.
+    - pose proof (twf_sizes _ _ _ _ _ _ _ Hinv) as H. rewrite fin_hist in H. unfold sizes_inv in H.
       unfold tb, tables_of. cbn [t_stsz_sizes]. destruct (wc_is_fixed_sample_size (tw_c w)).
       + destruct H as (H1 & H2 & H3 & H4 & H5). rewrite H3. reflexivity.
       + rewrite (proj2 H). apply forallb_forall. intros x Hx. apply in_map_iff in Hx as (s & <- & Hs).
         rewrite Forall_forall in Hok. apply N.ltb_lt. exact (proj1 (Hok s Hs)).
     - apply N.eqb_eq. unfold count_of_runs. rewrite <- lenN_rl_flat. change (rl_flat (t_stts tb)) with (deltas_flat tb).
-      rewrite fin_deltas. apply lenN_map.
+      rewrite fin_deltas. apply lenN_map_eq.
     - apply forallb_forall. intros e He. pose proof (rl_entry_le _ _ He) as Hle2.
-      change (rl_flat (t_stts tb)) with (deltas_flat tb) in Hle2. rewrite fin_deltas, lenN_map in Hle2.
-      pose proof (ti_stts_v _ _ _ _ _ _ _ Hinv) as Hv. rewrite Forall_forall in Hv. specialize (Hv e He).
+      change (rl_flat (t_stts tb)) with (deltas_flat tb) in Hle2. rewrite fin_deltas, lenN_map_eq in Hle2.
+      pose proof (twf_stts_v _ _ _ _ _ _ _ Hinv) as Hv. rewrite Forall_forall in Hv. specialize (Hv e He).
       apply andb_true_intro. split; apply N.ltb_lt; [|exact Hv]. lia.
-    - pose proof (ti_ctts _ _ _ _ _ _ _ Hinv) as H. rewrite fin_hist in H. unfold ctts_inv in H.
+    - pose proof (twf_ctts _ _ _ _ _ _ _ Hinv) as H. rewrite fin_hist in H. unfold ctts_inv in H.
       unfold tb, tables_of. cbn [t_ctts]. destruct (wt_ctts (tw_t w)) as [es|]; [|reflexivity].
       destruct H as [H1 H2]. apply andb_true_intro. split.
-      + apply N.eqb_eq. unfold count_of_runs. rewrite <- lenN_rl_flat, H1. apply lenN_map.
-      + apply forallb_forall. intros e He. pose proof (rl_entry_le _ _ He) as Hle2. rewrite H1, lenN_map in Hle2.
+      + apply N.eqb_eq. unfold count_of_runs. rewrite <- lenN_rl_flat, H1. apply lenN_map_eq.
+      + apply forallb_forall. intros e He. pose proof (rl_entry_le _ _ He) as Hle2. rewrite H1, lenN_map_eq in Hle2.
         rewrite Forall_forall in H2. rewrite (H2 e He). apply andb_true_intro. split; [|reflexivity].
         apply N.ltb_lt. lia.
     - unfold stss_of. destruct ss as [|a r] eqn:Ess; [reflexivity|]. rewrite <- Ess in *.
@@ -949,7 +949,7 @@ Section Final.
       + apply sync_ids_increasing. lia.
       + apply forallb_forall. intros x Hx. pose proof (sync_ids_range 1 ss) as Hr. rewrite Forall_forall in Hr.
         specialize (Hr x Hx). apply N.leb_le. lia.
-    - eapply chunks_fit_ok; [exact (ti_offs _ _ _ _ _ _ _ Hinv)|exact Hout].
+    - eapply chunks_fit_ok; [exact (twf_offs _ _ _ _ _ _ _ Hinv)|exact Hout].
   Qed.
 End Final.
 
@@ -968,7 +968,7 @@ Qed.
 
 Section Final2.
   Variables (lo base : N) (out : bytes) (mts : N) (w : twriter) (chs : list (list wsample)).
-  Hypothesis Hinv : tw_inv lo base out mts w chs [].
+  Hypothesis Hinv : twf_inv lo base out mts w chs [].
   Let ss := concat chs.
   Let tb := tables_of (tw_t w).
 
@@ -979,7 +979,7 @@ Section Final2.
     exists off, spec_offset tb k = Some off /\ lo <= off /\ off + sz s <= base + lenN out /\
                 sliceN (off - base) (sz s) out = ws_bytes s.
   Proof.
-    intros Hk. pose proof (ti_lo _ _ _ _ _ _ _ Hinv) as Hlo.
+    intros Hk. pose proof (twf_lo _ _ _ _ _ _ _ Hinv) as Hlo.
     unfold spec_size, spec_delta, spec_start, spec_cts, tb.
     rewrite (fin_sizes _ _ _ _ _ _ Hinv), (fin_deltas _ _ _ _ _ _ Hinv), (fin_cts _ _ _ _ _ _ Hinv).
     fold ss. rewrite !nth1_map, Hk, firstn_map. cbn [option_map].
@@ -989,12 +989,12 @@ Section Final2.
       destruct ss as [|a r] eqn:Ess; [discriminate|]. rewrite <- Ess in *.
       apply sync_ids_spec; [lia|exact Hk].
     - unfold spec_offset, tb. rewrite (fin_counts _ _ _ _ _ _ Hinv), fin_offsets, (fin_sizes _ _ _ _ _ _ Hinv).
-      destruct (locate_chunks _ _ _ _ _ (ti_offs _ _ _ _ _ _ _ Hinv) Hlo [] 1 1 k s) as (c & first & o & L1 & L2 & L3 & L4 & L5 & L6);
+      destruct (locate_chunks _ _ _ _ _ (twf_offs _ _ _ _ _ _ _ Hinv) Hlo [] 1 1 k s) as (c & first & o & L1 & L2 & L3 & L4 & L5 & L6);
         [reflexivity | lia | exact Hk |].
       cbn [app] in L5, L6. rewrite L1. unfold nth1. destruct (N.eqb_spec c 0); [lia|]. rewrite L3.
       eexists. split; [reflexivity|]. fold ss.
       assert (Ho : lo <= o).
-      { pose proof (ti_offs _ _ _ _ _ _ _ Hinv) as HF. apply nthN_some_lt in L3 as Hlt.
+      { pose proof (twf_offs _ _ _ _ _ _ _ Hinv) as HF. apply nthN_some_ltN in L3 as Hlt.
         rewrite nthN_nth_error in L3. clear - HF L3. revert L3. generalize (N.to_nat (c - 1)). intros n.
         revert n; induction HF as [|a ch l1 l2 (H1 & H2 & H3) HF IH]; intros [|n] E; try discriminate.
         - injection E as <-. exact H1.
@@ -1008,23 +1008,23 @@ Section Final2.
     pose proof (fin_count _ _ _ _ _ _ Hinv) as Hc. fold ss in Hc.
     unfold track_tables_ok, tb. rewrite iso_chunk_counts_eq, fin_offsets_of, (fin_sizes_of _ _ _ _ _ _ Hinv).
     fold ss. rewrite Hc. change (t_stsc (tables_of (tw_t w))) with (wt_stsc (tw_t w)).
-    rewrite (ti_counts _ _ _ _ _ _ _ Hinv).
+    rewrite (twf_counts _ _ _ _ _ _ _ Hinv).
     repeat (apply andb_true_intro; split).
     - unfold tb, tables_of. cbn [t_stco t_co64]. destruct (forallb _ _); reflexivity.
     - apply N.eqb_refl.
-    - apply N.eqb_eq. apply lenN_map.
+    - apply N.eqb_eq. apply lenN_map_eq.
     - apply N.eqb_eq. unfold run_total. rewrite <- lenN_rl_flat. change (rl_flat (t_stts (tables_of (tw_t w)))) with (deltas_flat (tables_of (tw_t w))).
-      rewrite (fin_deltas _ _ _ _ _ _ Hinv). apply lenN_map.
+      rewrite (fin_deltas _ _ _ _ _ _ Hinv). apply lenN_map_eq.
     - apply N.eqb_eq. rewrite rl_dur_total. change (rl_flat (t_stts (tables_of (tw_t w)))) with (deltas_flat (tables_of (tw_t w))).
       rewrite (fin_deltas _ _ _ _ _ _ Hinv). reflexivity.
-    - pose proof (ti_ctts _ _ _ _ _ _ _ Hinv) as H. rewrite (fin_hist chs) in H. unfold ctts_inv in H.
+    - pose proof (twf_ctts _ _ _ _ _ _ _ Hinv) as H. rewrite (fin_hist chs) in H. unfold ctts_inv in H.
       unfold tb, tables_of. cbn [t_ctts]. destruct (wt_ctts (tw_t w)) as [es|]; [|reflexivity].
-      apply N.eqb_eq. unfold run_total. rewrite <- lenN_rl_flat, (proj1 H). apply lenN_map.
-    - apply runs_ok_iso. exact (ti_runs _ _ _ _ _ _ _ Hinv).
-    - pose proof (ti_nil _ _ _ _ _ _ _ Hinv) as Hnil. destruct (wt_stsc (tw_t w)); [|reflexivity].
+      apply N.eqb_eq. unfold run_total. rewrite <- lenN_rl_flat, (proj1 H). apply lenN_map_eq.
+    - apply runs_ok_iso. exact (twf_runs _ _ _ _ _ _ _ Hinv).
+    - pose proof (twf_nil _ _ _ _ _ _ _ Hinv) as Hnil. destruct (wt_stsc (tw_t w)); [|reflexivity].
       rewrite (Hnil eq_refl). reflexivity.
     - apply N.eqb_eq. apply sumN_map_lenN.
-    - apply N.eqb_eq. rewrite lenN_map. symmetry. exact (fin_nchunks _ _ _ _ _ _ Hinv).
+    - apply N.eqb_eq. rewrite lenN_map_eq. symmetry. exact (fin_nchunks _ _ _ _ _ _ Hinv).
     - rewrite (fin_stss _ _ _ _ _ _ Hinv). fold ss. unfold stss_of.
       destruct ss as [|a r] eqn:Ess; [reflexivity|]. rewrite <- Ess in *.
       apply andb_true_intro. split.
@@ -1038,7 +1038,7 @@ Section Final2.
     = exts_of (wt_co64 (tw_t w)) chs.
   Proof.
     unfold tb. rewrite iso_chunk_counts_eq, fin_offsets_of, (fin_sizes_of _ _ _ _ _ _ Hinv).
-    change (t_stsc (tables_of (tw_t w))) with (wt_stsc (tw_t w)). rewrite (ti_counts _ _ _ _ _ _ _ Hinv).
+    change (t_stsc (tables_of (tw_t w))) with (wt_stsc (tw_t w)). rewrite (twf_counts _ _ _ _ _ _ _ Hinv).
     apply chunk_extents_exts. exact (fin_nchunks _ _ _ _ _ _ Hinv).
   Qed.
 End Final2.
@@ -1048,7 +1048,7 @@ Definition ghost : Type := list (list wsample) * list wsample.
 Definition tg_ext (tg : twriter * ghost) : list (N * N) := exts_of (wt_co64 (tw_t (fst tg))) (fst (snd tg)).
 Definition tg_hist (tg : twriter * ghost) : list wsample := hist (fst (snd tg)) (snd (snd tg)).
 Definition tg_inv (lo base : N) (out : bytes) (mts : N) (tg : twriter * ghost) : Prop :=
-  tw_inv lo base out mts (fst tg) (fst (snd tg)) (snd (snd tg)).
+  twf_inv lo base out mts (fst tg) (fst (snd tg)) (snd (snd tg)).
 
 Definition disj (a b : N * N) : Prop :=
   fst a + snd a <= fst b \/ fst b + snd b <= fst a \/ snd a = 0 \/ snd b = 0.
@@ -1093,7 +1093,7 @@ Proof.
   revert offs; induction chs as [|ch t IH]; intros offs H.
   - destruct offs; reflexivity.
   - destruct offs as [|o os]; [rewrite lenN_cons in H; change (lenN (@nil N)) with 0 in H; lia|].
-    rewrite !lenN_cons in H. unfold exts_of. cbn [combine map fst snd concat]. rewrite sumN_cons, csize_app.
+    rewrite !lenN_cons in H. unfold exts_of. cbn [combine map fst snd concat]. rewrite sumN_cons_eq, csize_app.
     f_equal. apply IH. lia.
 Qed.
 
@@ -1104,7 +1104,7 @@ Record tracks_inv (lo base : N) (out : bytes) (mts : N) (tgs : list (twriter * g
 
 Lemma tg_ext_within lo base out mts tg : tg_inv lo base out mts tg ->
   Forall (fun e => lo <= fst e /\ fst e + snd e <= base + lenN out) (tg_ext tg).
-Proof. intros H. apply exts_within. exact (ti_offs _ _ _ _ _ _ _ H). Qed.
+Proof. intros H. apply exts_within. exact (twf_offs _ _ _ _ _ _ _ H). Qed.
 
 Lemma all_ext_within lo base out mts tgs : Forall (tg_inv lo base out mts) tgs ->
   Forall (fun e => lo <= fst e /\ fst e + snd e <= base + lenN out) (concat (map tg_ext tgs)).
@@ -1130,8 +1130,8 @@ Lemma tracks_inv_write lo base out mts l1 x l2 x' b :
 Proof.
   intros [H1 H2 H3] Hx He. pose proof (all_ext_within _ _ _ _ _ H1) as Hw. constructor.
   - apply Forall_app in H1 as [Ha Hb]. inversion Hb; subst. apply Forall_app. split.
-    + eapply Forall_impl; [|exact Ha]. intros a. apply tw_inv_grow.
-    + constructor; [exact Hx|]. eapply Forall_impl; [|eassumption]. intros a. apply tw_inv_grow.
+    + eapply Forall_impl; [|exact Ha]. intros a. apply twf_inv_grow.
+    + constructor; [exact Hx|]. eapply Forall_impl; [|eassumption]. intros a. apply twf_inv_grow.
   - rewrite map_app in *. cbn [map] in *. rewrite He. rewrite concat_app in *. cbn [concat] in *.
     rewrite <- app_assoc. cbn [app]. rewrite app_assoc. apply FOP_insert.
     + rewrite <- app_assoc. exact H2.
@@ -1141,7 +1141,7 @@ Proof.
     + apply Forall_app in Hw as [Hw1 Hw2]. apply Forall_app in Hw2 as [Hw2 Hw3].
       eapply Forall_impl; [|exact Hw3]. intros e [_ Hle]. right. left. cbn [fst]. exact Hle.
   - rewrite map_app in *. cbn [map] in *. rewrite He. rewrite concat_app in *. cbn [concat] in *.
-    rewrite !map_app, !sumN_app in *. cbn [map snd]. rewrite sumN_cons, sumN_nil, lenN_app. lia.
+    rewrite !map_app, !sumN_app in *. cbn [map snd]. rewrite sumN_cons_eq, sumN_nil_eq, lenN_app. lia.
 Qed.
 
 (** ** the whole writer *)
@@ -1155,15 +1155,15 @@ Proof. revert a; induction l as [|x t IH]; intros a; cbn [fold_left maxl]; [lia|
 
 Definition tg_tkhd (tg : twriter * ghost) : N := wh_tkhd_duration (tw_h (fst tg)).
 
-Record mw_inv (w : mwriter) (tgs : list (twriter * ghost)) : Prop := mkMwInv {
-  mi_pos : mw_pos w = mw_base w + lenN (mw_out w);
-  mi_mdat : mw_base w <= mw_mdat_pos w;
-  mi_lo : mw_mdat_pos w + 16 <= mw_pos w;
-  mi_tracks : map fst tgs = mw_tracks w;
-  mi_inv : tracks_inv (mw_mdat_pos w + 16) (mw_base w) (mw_out w) (mw_timescale w) tgs;
-  mi_dur : mw_duration w = maxl (map tg_tkhd tgs) }.
+Record mwf_inv (w : mwriter) (tgs : list (twriter * ghost)) : Prop := mkMwfInv {
+  mwf_pos : mw_pos w = mw_base w + lenN (mw_out w);
+  mwf_mdat : mw_base w <= mw_mdat_pos w;
+  mwf_lo : mw_mdat_pos w + 16 <= mw_pos w;
+  mwf_tracks : map fst tgs = mw_tracks w;
+  mwf_tinv : tracks_inv (mw_mdat_pos w + 16) (mw_base w) (mw_out w) (mw_timescale w) tgs;
+  mwf_dur : mw_duration w = maxl (map tg_tkhd tgs) }.
 
-Lemma mw_write_start_inv base c : mw_inv (mw_write_start base c) [].
+Lemma mwf_write_start_inv base c : mwf_inv (mw_write_start base c) [].
 Proof.
   unfold mw_write_start. constructor; cbn [mw_pos mw_base mw_out mw_mdat_pos mw_tracks mw_timescale mw_duration map maxl].
   - reflexivity.
@@ -1171,12 +1171,12 @@ Proof.
   - rewrite lenN_app. change (lenN mdat_wide_headers) with 16. lia.
   - reflexivity.
   - constructor; cbn [map concat]; [constructor|constructor|].
-    rewrite lenN_app. change (lenN mdat_wide_headers) with 16. rewrite sumN_nil. lia.
+    rewrite lenN_app. change (lenN mdat_wide_headers) with 16. rewrite sumN_nil_eq. lia.
   - reflexivity.
 Qed.
 
 Lemma tracks_inv_add lo base out mts tgs t : tracks_inv lo base out mts tgs ->
-  tw_inv lo base out mts t [] [] -> wt_co64 (tw_t t) = [] -> tracks_inv lo base out mts (tgs ++ [(t, ([], []))]).
+  twf_inv lo base out mts t [] [] -> wt_co64 (tw_t t) = [] -> tracks_inv lo base out mts (tgs ++ [(t, ([], []))]).
 Proof.
   intros [H1 H2 H3] Ht Hc.
   assert (E : concat (map tg_ext (tgs ++ [(t, ([], []))])) = concat (map tg_ext tgs)).
@@ -1186,13 +1186,13 @@ Proof.
   apply Forall_app. split; [exact H1|]. constructor; [exact Ht|constructor].
 Qed.
 
-Lemma mw_add_track_inv m w c w' tgs : mw_inv w tgs -> mw_add_track m w c = Ok w' ->
-  exists t, mw_inv w' (tgs ++ [(t, ([], []))]).
+Lemma mw_add_track_inv m w c w' tgs : mwf_inv w tgs -> mw_add_track m w c = Ok w' ->
+  exists t, mwf_inv w' (tgs ++ [(t, ([], []))]).
 Proof.
   intros [H1 H2 H3 H4 H5 H6] H. unfold mw_add_track in H.
   destruct (add_w m U32 _ _ 1) as [id| | |]; try discriminate. cbn [res_bind] in H.
   destruct (tw_new id c) as [t| | |] eqn:Et; try discriminate. cbn [res_bind] in H. injection H as <-.
-  exists t. destruct (tw_new_inv (mw_mdat_pos w + 16) (mw_base w) (mw_out w) (mw_timescale w) _ _ _ Et) as [Hi Hc]; [lia|].
+  exists t. destruct (twf_new_inv (mw_mdat_pos w + 16) (mw_base w) (mw_out w) (mw_timescale w) _ _ _ Et) as [Hi Hc]; [lia|].
   constructor; cbn [mw_pos mw_base mw_out mw_mdat_pos mw_tracks mw_timescale mw_duration]; try assumption.
   - rewrite map_app, H4. reflexivity.
   - apply tracks_inv_add; assumption.
@@ -1223,9 +1223,9 @@ Qed.
 Lemma Ndiv_zero a : a / 0 = 0.
 Proof. destruct a; reflexivity. Qed.
 
-Lemma tkhd_of_mono md d mts ts : tkhd_of md mts ts <= tkhd_of (md + d) mts ts.
+Lemma tkhd_sat_mono md d mts ts : tkhd_sat md mts ts <= tkhd_sat (md + d) mts ts.
 Proof.
-  unfold tkhd_of. destruct (N.eqb_spec ts 0) as [->|Hts].
+  unfold tkhd_sat. destruct (N.eqb_spec ts 0) as [->|Hts].
   - rewrite !Ndiv_zero. destruct (0 <? U64); lia.
   - assert (H : md * mts / ts <= (md + d) * mts / ts) by (apply N.div_le_mono; [exact Hts|nia]).
     unfold U64MAX. destruct (N.ltb_spec (md * mts / ts) U64), (N.ltb_spec ((md + d) * mts / ts) U64); lia.
@@ -1236,13 +1236,13 @@ Lemma tg_tkhd_mono lo base out out' mts t g t' g' s :
   tg_hist (t', g') = tg_hist (t, g) ++ [s] -> tg_tkhd (t, g) <= tg_tkhd (t', g').
 Proof.
   intros H H' Hc Hh. unfold tg_tkhd, tg_inv, tg_hist in *. cbn [fst snd] in *.
-  rewrite (ti_td _ _ _ _ _ _ _ H), (ti_td _ _ _ _ _ _ _ H'), (ti_md _ _ _ _ _ _ _ H), (ti_md _ _ _ _ _ _ _ H'), Hh, Hc.
-  rewrite map_app, sumN_app. apply tkhd_of_mono.
+  rewrite (twf_td _ _ _ _ _ _ _ H), (twf_td _ _ _ _ _ _ _ H'), (twf_md _ _ _ _ _ _ _ H), (twf_md _ _ _ _ _ _ _ H'), Hh, Hc.
+  rewrite map_app, sumN_app. apply tkhd_sat_mono.
 Qed.
 
 Lemma mw_write_sample_inv m w id s w' tgs :
-  mw_inv w tgs -> sample_typed s -> mw_write_sample m w id s = Ok w' ->
-  exists g1 x g2 x', tgs = g1 ++ x :: g2 /\ lenN g1 + 1 = id /\ mw_inv w' (g1 ++ x' :: g2) /\
+  mwf_inv w tgs -> sample_typed s -> mw_write_sample m w id s = Ok w' ->
+  exists g1 x g2 x', tgs = g1 ++ x :: g2 /\ lenN g1 + 1 = id /\ mwf_inv w' (g1 ++ x' :: g2) /\
                      tg_hist x' = tg_hist x ++ [s].
 Proof.
   intros [H1 H2 H3 H4 H5 H6] Hs H. unfold mw_write_sample in H.
@@ -1257,7 +1257,7 @@ Proof.
   destruct g as [chs pend].
   destruct (tw_write_sample_inv _ _ _ _ _ _ _ _ _ _ _ _ _ Hx Hs H1 H3 Ew) as (Htd & Hconf & [(-> & Hco & Hi)|(-> & Hco & Hi)]).
   - exists g1, (t, (chs, pend)), g2, (t', (chs, pend ++ [s])). split; [reflexivity|].
-    split; [rewrite <- E1 in Hl; rewrite lenN_map in Hl; lia|]. split.
+    split; [rewrite <- E1 in Hl; rewrite lenN_map_eq in Hl; lia|]. split.
     + assert (Hm : tg_tkhd (t, (chs, pend)) <= tg_tkhd (t', (chs, pend ++ [s]))).
       { eapply tg_tkhd_mono; [exact Hx|exact Hi|exact Hconf|]. unfold tg_hist. cbn [fst snd]. apply hist_pend_snoc. }
       constructor; cbn [emit mw_pos mw_base mw_out mw_mdat_pos mw_tracks mw_timescale mw_duration]; try assumption.
@@ -1267,7 +1267,7 @@ Proof.
         rewrite Htd. match goal with |- (if ?a <? ?b then _ else _) = _ => destruct (N.ltb_spec a b) end; lia.
     + unfold tg_hist. cbn [fst snd]. apply hist_pend_snoc.
   - exists g1, (t, (chs, pend)), g2, (t', (chs ++ [pend ++ [s]], [])). split; [reflexivity|].
-    split; [rewrite <- E1 in Hl; rewrite lenN_map in Hl; lia|]. split.
+    split; [rewrite <- E1 in Hl; rewrite lenN_map_eq in Hl; lia|]. split.
     + assert (Hm : tg_tkhd (t, (chs, pend)) <= tg_tkhd (t', (chs ++ [pend ++ [s]], []))).
       { eapply tg_tkhd_mono; [exact Hx|exact Hi|exact Hconf|]. unfold tg_hist. cbn [fst snd].
         rewrite hist_flush. apply hist_pend_snoc. }
@@ -1276,7 +1276,7 @@ Proof.
       * lia.
       * rewrite map_app. cbn [map fst]. rewrite E1, E2. reflexivity.
       * eapply tracks_inv_write; [exact H5|exact Hi|]. unfold tg_ext. cbn [fst snd]. rewrite Hco.
-        rewrite exts_of_snoc by (exact (Forall2_lenN _ _ _ (ti_offs _ _ _ _ _ _ _ Hx))).
+        rewrite exts_of_snoc by (exact (Forall2_lenN _ _ _ (twf_offs _ _ _ _ _ _ _ Hx))).
         rewrite lenN_chunk_bytes, H1. reflexivity.
       * rewrite H6, !map_app, !maxl_app. cbn [map maxl]. unfold tg_tkhd in Hm |- *. cbn [fst] in Hm |- *.
         rewrite Htd. match goal with |- (if ?a <? ?b then _ else _) = _ => destruct (N.ltb_spec a b) end; lia.
@@ -1284,7 +1284,7 @@ Proof.
 Qed.
 
 (** ** histories *)
-Definition op_typed (op : mux_op) : Prop :=
+Definition op_typedP (op : mux_op) : Prop :=
   match op with OpWrite _ s => sample_typed s | OpAddTrack _ => True end.
 
 (** the samples of the calls [write_sample(id, _)] that returned [Ok], in call order *)
@@ -1338,8 +1338,8 @@ Proof.
 Qed.
 
 Lemma run_ops_inv m : forall ops w acc w1 cls tgs,
-  run_ops m w ops acc = Ok (w1, cls) -> mw_inv w tgs -> Forall op_typed ops ->
-  exists cls' tgs1, cls = acc ++ cls' /\ length cls' = length ops /\ mw_inv w1 tgs1 /\
+  run_ops m w ops acc = Ok (w1, cls) -> mwf_inv w tgs -> Forall op_typedP ops ->
+  exists cls' tgs1, cls = acc ++ cls' /\ length cls' = length ops /\ mwf_inv w1 tgs1 /\
     mw_base w1 = mw_base w /\ mw_mdat_pos w1 = mw_mdat_pos w /\ mw_timescale w1 = mw_timescale w /\
     hist_bytes tgs1 = hist_bytes tgs + accepted_bytes ops cls' /\
     forall i, nth i (map tg_hist tgs1) [] = nth i (map tg_hist tgs) [] ++ accepted_samples ops cls' (N.of_nat i + 1).
@@ -1347,7 +1347,7 @@ Proof.
   induction ops as [|op rest IH]; intros w acc w1 cls tgs H Hinv Hty.
   - cbn [run_ops] in H. injection H as <- <-. exists [], tgs. rewrite app_nil_r. split; [reflexivity|]. split; [reflexivity|]. split; [exact Hinv|].
     split; [reflexivity|]. split; [reflexivity|]. split; [reflexivity|].
-    split; [unfold accepted_bytes; cbn [combine map]; rewrite sumN_nil; lia|].
+    split; [unfold accepted_bytes; cbn [combine map]; rewrite sumN_nil_eq; lia|].
     intros i. unfold accepted_samples. cbn [combine flat_map]. now rewrite app_nil_r.
   - inversion Hty as [|? ? Hop Hrest]; subst.
     destruct (apply_op m w op) as [w'|e|x|] eqn:E.
@@ -1360,8 +1360,8 @@ Proof.
         split; [exact Hi1|]. split; [congruence|]. split; [congruence|]. split; [congruence|].
         split.
         { rewrite Hb. unfold hist_bytes, accepted_bytes. rewrite map_app, sumN_app. cbn [combine map].
-          rewrite !sumN_cons, sumN_nil. unfold tg_hist at 2. cbn [fst snd]. unfold hist, csize. cbn [concat app map].
-          rewrite sumN_nil. lia. }
+          rewrite !sumN_cons_eq, sumN_nil_eq. unfold tg_hist at 2. cbn [fst snd]. unfold hist, csize. cbn [concat app map].
+          rewrite sumN_nil_eq. lia. }
         intros i. rewrite Hh, map_app. cbn [map]. unfold tg_hist at 2. cbn [fst snd]. unfold hist. cbn [concat app].
         rewrite nth_snoc_nil. reflexivity.
       * destruct (mw_write_sample_inv _ _ _ _ _ _ Hinv Hop E) as (g1 & x & g2 & x' & -> & Hid & Hinv' & Hx).
@@ -1370,7 +1370,7 @@ Proof.
         split; [exact Hi1|]. split; [congruence|]. split; [congruence|]. split; [congruence|].
         split.
         { rewrite Hb. unfold hist_bytes, accepted_bytes. rewrite !map_app, !sumN_app. cbn [combine map].
-          rewrite !sumN_cons, Hx, csize_app. unfold csize at 3. cbn [map]. rewrite sumN_cons, sumN_nil. unfold sz. lia. }
+          rewrite !sumN_cons_eq, Hx, csize_app. unfold csize at 3. cbn [map]. rewrite sumN_cons_eq, sumN_nil_eq. unfold sz. lia. }
         intros i. rewrite Hh, (nth_middle_hist tg_hist g1 x x' g2 s i Hx), <- app_assoc. f_equal.
         unfold accepted_samples. cbn [combine flat_map]. rewrite Hid. reflexivity.
     + rewrite (run_ops_rejected _ _ _ _ _ _ E) in H.
@@ -1378,7 +1378,7 @@ Proof.
       exists (class_of (@Err unit e) :: cls'), tgs1. rewrite <- app_assoc. split; [reflexivity|]. split; [cbn [length]; lia|].
       split; [exact Hi1|]. split; [exact G1|]. split; [exact G2|]. split; [exact G3|].
       split.
-      { rewrite Hb. f_equal. unfold accepted_bytes. cbn [combine map]. rewrite sumN_cons. destruct op, e; cbn [class_of]; lia. }
+      { rewrite Hb. f_equal. unfold accepted_bytes. cbn [combine map]. rewrite sumN_cons_eq. destruct op, e; cbn [class_of]; lia. }
       intros i. rewrite Hh. f_equal. unfold accepted_samples. cbn [combine flat_map].
       destruct op, e; reflexivity.
     + cbn [run_ops] in H. unfold apply_op in E. destruct op; rewrite E in H; discriminate.
@@ -1439,7 +1439,7 @@ Proof.
       * lia.
       * rewrite <- app_assoc. cbn [app]. eapply tracks_inv_write; [exact Hinv|exact Hi|].
         unfold tg_ext. cbn [fst snd]. rewrite Hco.
-        rewrite exts_of_snoc by (exact (Forall2_lenN _ _ _ (ti_offs _ _ _ _ _ _ _ Hx))).
+        rewrite exts_of_snoc by (exact (Forall2_lenN _ _ _ (twf_offs _ _ _ _ _ _ _ Hx))).
         rewrite lenN_chunk_bytes, Hpos. reflexivity.
       * apply Forall2_app; [exact Hacc|]. constructor; [|constructor]. split; [exact Htf|reflexivity].
       * exists done'. cbn [mw_pos mw_base mw_out mw_mdat_pos mw_tracks mw_timescale mw_duration] in *.
@@ -1470,10 +1470,10 @@ Proof.
   rewrite dropN_app_ge by lia. rewrite dropN_dropN. f_equal. lia.
 Qed.
 
-Lemma tw_inv_patch lo base out out' mts w chs pend :
-  tw_inv lo base out mts w chs pend -> lenN out' = lenN out ->
+Lemma twf_inv_patch lo base out out' mts w chs pend :
+  twf_inv lo base out mts w chs pend -> lenN out' = lenN out ->
   (forall k, lo - base <= k -> dropN k out' = dropN k out) ->
-  tw_inv lo base out' mts w chs pend.
+  twf_inv lo base out' mts w chs pend.
 Proof.
   intros [Hlo Hok Hid Hidb Hcnt Hsz Hstts Hsv Hctts Hstss Hruns Hnil Hcounts Hne Hoffs Hpn Hpb Hmd Htd Hmv Htv] Hl Hd.
   constructor; try assumption.
@@ -1487,10 +1487,10 @@ Lemma tracks_inv_patch lo base out out' mts tgs :
   tracks_inv lo base out' mts tgs.
 Proof.
   intros [H1 H2 H3] Hl Hd. constructor; [|exact H2|rewrite Hl; exact H3].
-  eapply Forall_impl; [|exact H1]. intros tg Htg. eapply tw_inv_patch; eassumption.
+  eapply Forall_impl; [|exact H1]. intros tg Htg. eapply twf_inv_patch; eassumption.
 Qed.
 
-Lemma mw_write_end_inv m w f tgs : mw_inv w tgs -> mw_write_end m w = Ok f ->
+Lemma mw_write_end_inv m w f tgs : mwf_inv w tgs -> mw_write_end m w = Ok f ->
   exists done,
     tracks_inv (mf_mdat_pos f + 16) (mf_base f) (mf_out f) (mf_mvhd_timescale f) done /\
     Forall2 fin_rel (mf_tracks f) done /\
@@ -1529,10 +1529,10 @@ Definition op_typedb (op : mux_op) : bool :=
   end.
 Definition ops_typed (ops : list mux_op) : bool := forallb op_typedb ops.
 
-Lemma ops_typed_Forall ops : ops_typed ops = true -> Forall op_typed ops.
+Lemma ops_typed_Forall ops : ops_typed ops = true -> Forall op_typedP ops.
 Proof.
   unfold ops_typed. rewrite forallb_forall, Forall_forall. intros H op Hop. specialize (H op Hop).
-  destruct op as [c|id s]; [exact I|]. cbn [op_typedb op_typed] in *. apply andb_true_iff in H as [Ha Hb].
+  destruct op as [c|id s]; [exact I|]. cbn [op_typedb op_typedP] in *. apply andb_true_iff in H as [Ha Hb].
   split; [apply N.ltb_lt; exact Ha|exact Hb].
 Qed.
 
@@ -1550,13 +1550,13 @@ Proof.
   intros H Hty. apply ops_typed_Forall in Hty. unfold run_mux in H.
   destruct (run_ops m (mw_write_start base cfg) ops []) as [[w cls0]| | |] eqn:Er; try discriminate. cbn [res_bind] in H.
   destruct (mw_write_end m w) as [f0| | |] eqn:Ee; try discriminate. cbn [res_bind] in H. injection H as <- <-.
-  destruct (run_ops_inv m _ _ _ _ _ [] Er (mw_write_start_inv base cfg) Hty)
+  destruct (run_ops_inv m _ _ _ _ _ [] Er (mwf_write_start_inv base cfg) Hty)
     as (cls' & tgs1 & -> & Hlen & Hi1 & G1 & G2 & G3 & Hb & Hh).
   destruct (mw_write_end_inv _ _ _ _ Hi1 Ee) as (done & R1 & R2 & R3 & R4 & R5 & R6 & R7).
   exists done. cbn [app]. split; [exact Hlen|]. split; [exact R1|]. split; [exact R2|]. split.
   { intros i. rewrite R3, Hh. cbn [map]. destruct i; reflexivity. }
   split.
-  { unfold hist_bytes in *. rewrite <- map_map, R3, map_map, Hb. cbn [map]. rewrite sumN_nil. lia. }
+  { unfold hist_bytes in *. rewrite <- map_map, R3, map_map, Hb. cbn [map]. rewrite sumN_nil_eq. lia. }
   split; [exact R4|]. rewrite R5, R6, R7, G1, G2, G3. repeat split.
 Qed.
 
@@ -1590,7 +1590,7 @@ Qed.
 Lemma final_track m base cfg ops cls f i tf :
   run_mux m base cfg ops = Ok (cls, f) -> ops_typed ops = true -> nth_error (mf_tracks f) i = Some tf ->
   exists t chs,
-    tw_inv (mf_mdat_pos f + 16) (mf_base f) (mf_out f) (mf_mvhd_timescale f) t chs [] /\
+    twf_inv (mf_mdat_pos f + 16) (mf_base f) (mf_out f) (mf_mvhd_timescale f) t chs [] /\
     tf = final_of t /\ concat chs = accepted_samples ops cls (N.of_nat i + 1).
 Proof.
   intros H Hty Hn. destruct (run_mux_inv _ _ _ _ _ _ H Hty) as (done & _ & R1 & R2 & R3 & _).
@@ -1628,9 +1628,9 @@ Proof.
   { pose proof (tk_each _ _ _ _ _ R1) as Hf. clear - Hf R2. revert Hf R2. generalize (mf_tracks f). intros tfs Hf R2.
     revert tfs R2. unfold hist_bytes. induction Hf as [|[t [chs pend]] r Hx _ IH]; intros tfs R2; [reflexivity|].
     inversion R2 as [|tf ? tfs' ? [_ Hp] Hr]; subst. cbn [fst snd] in Hp. subst pend.
-    cbn [map concat]. rewrite map_app, sumN_app, sumN_cons, (IH _ Hr). f_equal.
+    cbn [map concat]. rewrite map_app, sumN_app, sumN_cons_eq, (IH _ Hr). f_equal.
     unfold tg_ext, tg_hist, hist. cbn [fst snd]. rewrite app_nil_r.
-    apply sum_exts. exact (Forall2_lenN _ _ _ (ti_offs _ _ _ _ _ _ _ Hx)). }
+    apply sum_exts. exact (Forall2_lenN _ _ _ (twf_offs _ _ _ _ _ _ _ Hx)). }
   rewrite E in Hl. lia.
 Qed.
 
@@ -1673,7 +1673,7 @@ Theorem mux_valid m base cfg ops cls f :
      track_tables_ok (tf_tables tf) (lenN ss) (sumN (map ws_duration ss)) = true /\
      wh_mdhd_duration (tf_hdr tf) = sumN (map ws_duration ss) /\
      wh_tkhd_duration (tf_hdr tf) =
-       tkhd_of (wh_mdhd_duration (tf_hdr tf)) (mf_mvhd_timescale f) (tc_timescale (tf_conf tf))) /\
+       tkhd_sat (wh_mdhd_duration (tf_hdr tf)) (mf_mvhd_timescale f) (tc_timescale (tf_conf tf))) /\
   forallb (forallb (within (mf_mdat_pos f + 16) (mf_base f + lenN (mf_out f)))) (map track_extents (mf_tracks f)) = true /\
   pairwise_disjoint (concat (map track_extents (mf_tracks f))) = true /\
   mf_mvhd_duration f = fold_left N.max (map (fun tf => wh_tkhd_duration (tf_hdr tf)) (mf_tracks f)) 0.
@@ -1682,8 +1682,8 @@ Proof.
   - intros i tf Hn ss. destruct (final_track _ _ _ _ _ _ _ _ H Hty Hn) as (t & chs & Hinv & -> & Hss). fold ss in Hss.
     cbn [final_of tf_tables tf_hdr tf_conf]. rewrite <- Hss. split; [|split].
     + exact (fin_tables_ok _ _ _ _ _ _ Hinv).
-    + rewrite (ti_md _ _ _ _ _ _ _ Hinv), fin_hist. reflexivity.
-    + exact (ti_td _ _ _ _ _ _ _ Hinv).
+    + rewrite (twf_md _ _ _ _ _ _ _ Hinv), fin_hist. reflexivity.
+    + exact (twf_td _ _ _ _ _ _ _ Hinv).
   - destruct (run_mux_inv _ _ _ _ _ _ H Hty) as (done & _ & R1 & R2 & _ & _ & R5 & _).
     destruct (fin_rel_maps _ _ _ _ _ _ R2 (tk_each _ _ _ _ _ R1)) as [E1 E2]. rewrite E1, E2. split; [|split].
     + apply forallb_forall. intros l Hl. apply in_map_iff in Hl as (tg & <- & Htg).
@@ -1728,7 +1728,7 @@ Proof.
     destruct (N.ltb_spec (U32 - 1) (mf_mvhd_duration f0)); [reflexivity|].
     apply orb_true_iff. right. apply N.ltb_lt. unfold U32 in *. lia.
   - intros i tf Hn. destruct (final_track _ _ _ _ _ _ _ _ H Hty Hn) as (t & chs & Hinv & -> & _).
-    cbn [final_of tf_hdr]. pose proof (ti_mv _ _ _ _ _ _ _ Hinv) as Hm. pose proof (ti_tv _ _ _ _ _ _ _ Hinv) as Ht.
+    cbn [final_of tf_hdr]. pose proof (twf_mv _ _ _ _ _ _ _ Hinv) as Hm. pose proof (twf_tv _ _ _ _ _ _ _ Hinv) as Ht.
     unfold U32MAX in *. split; apply orb_true_iff.
     + destruct (N.ltb_spec (U32 - 1) (wh_mdhd_duration (tw_h t))) as [Hl|Hl].
       * left. apply N.eqb_eq. exact (Hm Hl).
